@@ -168,6 +168,16 @@ def _flush_primary():
     raise RuntimeError("C20 flush_backups harness missing")
 HARNESSES += _flush_primary()
 
+HARNESSES.append(
+    dict(name="expanddir", src="expanddir.c", extra_src=["lib/ext2fs/i_block.c", "lib/ext2fs/blknum.c"],
+         funcs=["e2fsck_expand_directory", "expand_dir_proc", "ext2fs_iblk_add_blocks", "ext2fs_inode_size_set"],
+         configs=[{"RATIO": 4, "NUM": 1}, {"RATIO": 4, "NUM": 2}, {"RATIO": 1, "NUM": 2}],
+         unwind=4, unwindset=["main.%d:34" % i for i in range(24)] + ["ext2fs_block_iterate3.0:7", "ext2fs_new_block2.0:3", "ext2fs_new_block2.1:9",
+                              "ext2fs_block_alloc_stats2.0:9", "ext2fs_write_dir_block4.0:33", "ext2fs_zero_blocks2.0:33", "ext2fs_mark_generic_bmap.0:9",
+                              "ref_clusters.0:7", "ref_clusters.1:9"],
+         backends=["default", "kissat"],
+         bound="8 clusters of 4 blocks (bigalloc) / 1 block, 1 KiB blocks; extent-mapped directory of 1..4 blocks at symbolic physical blocks, "
+               "1 or 2 blocks requested, block_found_map arbitrary elsewhere, allocator's choice symbolic"))
 MANIFEST = {
     "text": "Kernel-level slice (partial). Bounded-exhaustive: (1) the fix_problem() protocol over every entry of the real problem_table, every "
             "latch state and flag word: 'no' un-marks valid unless PR_NO_OK, 'yes' sets PROBLEMS_FIXED unless PR_NOT_A_FIX, -n never fixes and "
